@@ -12,6 +12,7 @@ mod arc;
 mod logq;
 mod multi;
 mod resring;
+mod asyncsend;
 
 use std::io::{BufRead, Write};
 
@@ -40,6 +41,7 @@ fn main() {
             "log" => logq::run(&case),
             "multi" => multi::run(&case),
             "resring" => resring::run(&case),
+            "async" => asyncsend::run(&case),
             other  => panic!("unknown case kind '{other}'"),
         };
         let text: Vec<String> = trace.iter().map(|v| v.to_string()).collect();
